@@ -550,7 +550,10 @@ def run(ctx):
     # ---- 5. implementation-shaped layers (ring head, free list) refine the property layer
     impl_layers(ctx, quick)
     # ---- 6. selftest of the binding
-    selftest(ctx, automata["queue"], qtrace, "CQueueTrace")
+    if ctx.violations:
+        ctx.note("selftest skipped: violations were found on this tree")
+    else:
+        selftest(ctx, automata["queue"], qtrace, "CQueueTrace")
     ctx.evaluations = stats["paths"]
     ctx.distinct = stats["edges"]
     ctx.coverage["lockstep"] = {"steps_executed": stats["steps"], "paths_and_walks": stats["paths"],
